@@ -81,7 +81,19 @@ def _strategy():
             s = G.add_multi_base_family(s, draw)
         chain = [G.render(s)]
         edits = []
-        for _ in range(draw(st.integers(1, 4))):
+        if draw(st.integers(0, 3)) == 0:
+            # a structural family and one of its edits as two steps of the chain
+            from vp_harness.gen import families as F
+            fam = F.draw_family(draw, s['modules'], editable_only=True)
+            sa = F.add(s, fam['A'], draw)
+            edit = draw(st.sampled_from(sorted(fam['B'])))
+            sb = F.replace(sa, fam, edit)
+            if draw(st.integers(0, 4)) == 0:
+                sa, sb = sb, sa
+            chain = [G.render(s), G.render(sa), G.render(sb)] if draw(st.booleans()) else [G.render(sa), G.render(sb)]
+            edits = [['family:add']] * (len(chain) - 2) + [[f'family:{fam["name"]}:{edit}']]
+            s = sb
+        for _ in range(draw(st.integers(0 if edits else 1, 3 if edits else 4))):
             s, e = G.mutate(s, draw)
             chain.append(G.render(s))
             edits.append(e)
@@ -104,8 +116,9 @@ def _run(rec, case):
              classes=cls, sample={'edits': case['edits'], 'first': case['chain'][0][:300]})
     if info['rejected_at'] is not None:
         rec.skip('step-rejected:' + info.get('why', '')[:40])
+    fam = ''.join('|' + x for e in case['edits'] for x in e if x.startswith('family:') and x != 'family:add')
     for sig, detail in viol[:1]:
-        rec.violation(sig, case, detail)
+        rec.violation(sig + fam, case, detail)
 
 
 def shard(rec, idx, nshards, seed, tier):
